@@ -12,7 +12,6 @@ Atomicity of a single XADD instruction is an axiom of the interpreter (one
 step), as it is of the hardware.
 """
 import contextlib
-import struct
 
 from mc import bpfvm, core
 from mc.dsl import Raw
@@ -30,9 +29,9 @@ RULE = ("configurations = memory kind x format x (+=, -=) x amount form x "
         "with exact dedup enumerates all instruction-level interleavings of "
         "the compiled statement (mode 'stmt': private prologue executed "
         "first) or of the whole programs (mode 'whole'); a configuration is "
-        "non-trivial when at least two instances touch the same memory and "
-        "the search has more than one terminal path; distinct = distinct "
-        "configuration")
+        "non-trivial when the instances share the variable's memory and the "
+        "explored graph branches (more states than one linear run); distinct "
+        "= distinct (configuration, initial value)")
 
 M64 = (1 << 64) - 1
 M32 = (1 << 32) - 1
@@ -166,7 +165,6 @@ class Inst:
         self.cfg, self.i = cfg, i
         self.delta = None
         inst = self
-        size = SIZE[fmt]
         attrs = {}
         subs = ()
         if kind in ("pktvar", "pktarr", "rawsum", "rawptr"):
